@@ -63,7 +63,8 @@ impl<T: Clone + TTOverwriteable> TranspositionTable<T> {
     }
 
     pub fn new_generation(&mut self) {
-        self.generation += 1;
+        // The age only has to differ between neighbouring searches, so wrapping around is fine
+        self.generation = self.generation.wrapping_add(1);
     }
 
     #[expect(
